@@ -193,6 +193,8 @@ def gen_ops(rng, sc, nops, faults):
         flt = "N"
         if faults and op[0] not in ("unload", "restart") and rng.random() < faults:
             flt = rng.choice("FFC") + str(rng.choice([1, 1, 2, 2, 3]))
+        if faults and op[0] == "settags" and rng.random() < 0.3:
+            flt = rng.choice(["F1", "F1", "C1"])           # the only store write of {set tags}
         if faults and op[0] == "setdesc" and op[1][2] > 1 and op[1][4] != 0 and rng.random() < 0.3:
             flt = rng.choice(["F2", "F2", "C2", "F1"])     # a fault between the topic write and the subscription write
         ops.append((flt, op[0], op[1]))
@@ -367,6 +369,8 @@ def monitor(sc, views):
     res = []
     prev = None
     prev_inc = {}
+    key_law = {}        # incoherent (field, user) -> the law that was raised when it appeared
+    prev_inc_law = {}
     for k, v in enumerate(views):
         fault, kind, args = sc.ops[k]
         crashed = fault != "N" and fault[0] == "C"
@@ -400,7 +404,9 @@ def monitor(sc, views):
                     law = "reject-changes-desc-" + fk
                 else:
                     law = "coherent-desc-" + fk
+            key_law[key] = law
             res.append((law, k, "%s after %s %s (reply %s)" % (det, kind, args, code), key))
+        key_law = {kk: l for kk, l in key_law.items() if kk in inc}
         if prev is not None and sid is not None:
             st_changed = v.b["store"] != prev.b["store"]
             ca_changed = (not crashed) and prev.loaded and v.loaded and (prev.cache, prev.cusers) != (v.cache, v.cusers)
@@ -410,7 +416,7 @@ def monitor(sc, views):
                     law = L_PARTLY if (kind == "setdesc" and fault != "N" and attached) else "reject-changes-desc-store"
                     res.append((law, k, "%s %s answered %d but the stored rows changed: %s" % (kind, args, code, ch[:4]), None))
                 if ca_changed:
-                    res.append(("reject-changes-desc-cache", k, "%s %s answered %d but the cached state changed: %s -> %s"
+                    res.append((L_PARTLY if (kind == "setdesc" and fault != "N" and attached) else "reject-changes-desc-cache", k, "%s %s answered %d but the cached state changed: %s -> %s"
                                 % (kind, args, code, (prev.cache, prev.cusers), (v.cache, v.cusers)), None))
             elif kind in QUERIES:
                 if st_changed:
@@ -439,6 +445,11 @@ def monitor(sc, views):
                     if r is None or r["priv"] != expected_after_set(priv, None):
                         if not attached and priv == 1 and r is not None and r["priv"] == "1":
                             lit.append("private=DEL stored as the literal string")
+                        elif attached and ("priv", actor) in prev_inc and prev_inc_law.get(("priv", actor)):
+                            # the request was judged against a cached private value that was already stale: same root cause
+                            res.append((prev_inc_law[("priv", actor)], k,
+                                        "%s %s answered 200 but was merged with the stale cached private value: stored %s"
+                                        % (kind, args, r and r["priv"]), None))
                         else:
                             bad.append("priv=%s stored %s" % (expected_after_set(priv, None), r and r["priv"]))
                 if bad:
@@ -454,6 +465,7 @@ def monitor(sc, views):
                                 % (kind, args, exp, v.topic.get("tags")), None))
         prev = v
         prev_inc = inc if v.loaded else {}
+        prev_inc_law = dict(key_law) if v.loaded else {}
     return res
 
 
@@ -548,23 +560,32 @@ def compare_variant(sc, base_blocks, var_blocks, p, nins):
     return None
 
 
-def attribute(views, fails, p, kinds):
-    """law of a differential failure: the root cause the coherence monitor already raised on the unperturbed
-    run when the cache is incoherent right before the reload IN THE FIELDS THAT DIFFER (the reload only makes
-    that defect visible); anything not explained that way is reload-visible-desc"""
-    if p == 0:
-        return "reload-visible-desc"
-    inc = incoherent(views[p - 1])
+def active_laws(views, fails, k):
+    """{field: law} for the incoherences present after request k-1 of a run, named by the law raised when they appeared"""
+    if k <= 0 or k > len(views):
+        return {}
+    inc = incoherent(views[k - 1])
     active = {}
     for law, j, _, key in fails:
-        if j < p and key is not None and key in inc:
+        if j < k and key is not None and key in inc:
             active.setdefault(key[0], law)
+    return active
+
+
+def attribute(views, fails, p, k, kinds, vviews, vfails, nins):
+    """law of a differential failure: the root cause the coherence monitor raised on the unperturbed run (or on
+    the perturbed one) when, right before the reload or right before the differing request, the cache is incoherent
+    IN THE FIELDS THAT DIFFER (the reload only makes that defect visible); anything not explained that way is
+    reload-visible-desc"""
+    active = {}
+    for a in (active_laws(views, fails, p), active_laws(views, fails, k), active_laws(vviews, vfails, k + nins)):
+        for f, law in a.items():
+            active.setdefault(f, law)
     laws = []
     for kd in sorted(kinds):
-        f = {"store-topic": None, "store-tagidx": None}.get(kd, kd)
-        if f is None or f not in active:
+        if kd not in active:
             return "reload-visible-desc"
-        laws.append(active[f])
+        laws.append(active[kd])
     return laws[0] if laws else "reload-visible-desc"
 
 
@@ -615,7 +636,7 @@ def run_part(ctx, replay=None):
         if os.path.isdir(cdir):
             for f in sorted(os.listdir(cdir)):
                 scns.append(from_replay(json.load(open(os.path.join(cdir, f))), "c_" + f.split(".")[0]))
-        total = 60 if quick else 1500
+        total = 60 if quick else 600
         for i in range(total):
             sc = gen_setup(rng, "d%d" % i)
             gen_ops(rng, sc, rng.randint(6, 18), 0.0 if i % 3 else 0.2)
@@ -678,7 +699,7 @@ def run_part(ctx, replay=None):
             c, nins = variant_of(scns[0], views[scns[0].id], replay_ins[0], replay_ins[1], "v0")
             variants.append((c, scns[0], replay_ins[0], nins, replay_ins[1]))
     else:
-        n_every = 3 if quick else len(scns)
+        n_every = 3 if quick else 120
         pick_every = set(sc.id for sc in rng.sample(scns, min(n_every, len(scns)))) | set(sc.id for sc in scns if sc.id.startswith("c_"))
         for sc in scns:
             n = len(sc.ops)
@@ -704,7 +725,8 @@ def run_part(ctx, replay=None):
             if r is None:
                 continue
             k, kinds, det = r
-            law = attribute(views[sc.id], fails[sc.id], p, kinds)
+            vviews, vfails = mon(c, vimpl[c.id])
+            law = attribute(views[sc.id], fails[sc.id], p, k, kinds, vviews, vfails, nins)
             dfails.setdefault(law, []).append((sc, p, how, k, kinds, det))
     t_var = time.time() - t1
     for law, lst in sorted(dfails.items()):
@@ -747,7 +769,7 @@ def run_part(ctx, replay=None):
                 "and without set.desc.private, {leave} with and without unsub, unload / restart at random positions; a third of the histories "
                 "with single store faults F k / C k), each followed by {get desc} for every session and {get tags} for the owner's; each history is "
                 "also run with the topic reloaded (leave all; unload; re-attach) or the process restarted before one random request "
-                "(quick; before EVERY request for %s histories)" % ("3" if quick else "all"),
+                "(quick; before EVERY request, both ways, for %s histories)" % ("3" if quick else "120"),
         "trusted_base": [
             "harness/overlay/server/zz_verif_c08_test.go: drives the real Hub/Topic/Session code, dumps Topic.accessAuth/accessAnon/public/trusted/tags/owner/perUser at quiescence",
             "harness/overlay/server/db/memverif (+ zz_dump_desc.go): in-memory adapter written from db/mysql/adapter.go; createSubscription(undelete=true) keeps the private column as the SQL does",
